@@ -231,20 +231,23 @@ int flush_pubsub_msgs(void *data, const char *key, void *value) {
         M_DEBUG("Destroying enqueued pubsub message for module '%s'.\n", mod->name);
         m_mem_unref(mm);
     }
-    call_pubsub_cb(mod, flushed);
-    if (poisoned && m_mod_is(mod, M_MOD_RUNNING | M_MOD_PAUSED)) {
-        M_INFO("PoisonPilling '%s'.\n", mod->name);
-        stop(mod, true);
-    }
-    
-    /* 
-     * If we are stopping the ctx loop,
-     * advise fuse fs that the ctx is stoppped
-     * and all clients must be notified and freed.
-     */
-    if (!stopping_mod) {
-        fs_ctx_stopped(mod);
-    }
+    /* Keep the module alive: its callback may deregister it (and drop the last reference) */
+    M_MEM_LOCK(mod, {
+        call_pubsub_cb(mod, flushed);
+        if (poisoned && m_mod_is(mod, M_MOD_RUNNING | M_MOD_PAUSED)) {
+            M_INFO("PoisonPilling '%s'.\n", mod->name);
+            stop(mod, true);
+        }
+        
+        /* 
+         * If we are stopping the ctx loop,
+         * advise fuse fs that the ctx is stoppped
+         * and all clients must be notified and freed.
+         */
+        if (!stopping_mod) {
+            fs_ctx_stopped(mod);
+        }
+    });
     return 0;
 }
 
